@@ -158,7 +158,7 @@ func runE1(r *eng.Run, sp e1Spec, D, K, maxStates int) e1Result {
 	}
 	if !sp.noPump && !r.TooMany() {
 		expanding = false
-		pn, pt := r.Pick(9, 17), r.Pick(8, 16)
+		pn, pt := r.Pick(17, 65), r.Pick(16, 32)
 		if sp.pumpN > 0 {
 			pn, pt = sp.pumpN, sp.pumpTail
 		}
